@@ -58,6 +58,7 @@ class Sim:
             self.explicit[self.fault_label(e["site"], e["key"])] = e
         self.rates = f.get("rates") or {}
         self.zombie_q = float(f.get("zombie_q", 0.0))
+        self.wake_sites = list(f.get("wake_sites") or [])
         clock = cfg.get("clock") or {}
         self.skew = float(clock.get("skew0", 0.0))
         self.jump_rate = float(clock.get("jump_rate", 0.0))
@@ -146,6 +147,10 @@ class Sim:
                 h = H(self.seed, "faultparam", label, kind)
                 if site == "mcs_job" and kind == "timeout":
                     e["lines"] = h % 16
+                    if self.wake_sites and (h >> 8) % 3 == 0:
+                        # hold the zombie back until the pipeline is inside a function that reads the
+                        # shared record, then let it run eagerly (faults placed where state is in flight)
+                        e["wake_in"] = self.wake_sites[(h >> 16) % len(self.wake_sites)]
                 if site == "fmcs" and kind == "cancel":
                     e["drop"] = 1 + h % 3
                 return e
